@@ -8,21 +8,26 @@ namespace Ioflo.Clones
 /-- a framer object without auxiliaries whose script is a leaf script -/
 def LeafObj (s : St) (a : Nat) : Prop :=
   ∃ (o : Fr) (ι : String → String) (P : List Frame), s.get? a = some o ∧ o.frames = P.map (Frame.mapRef ι) ∧
-    (∀ f ∈ P, f.leafy = true) ∧ (∀ x y : String, ι x = ι y → x = y)
+    (∀ f ∈ P, f.leafy = true) ∧ (∀ x y : String, ι x = ι y → x = y) ∧ o.house = s.cur
 
-theorem LeafObj.of_get? {s s' : St} {a : Nat} (h : LeafObj s a) (e : s'.get? a = s.get? a) : LeafObj s' a := by
-  obtain ⟨o, ι, P, h1, h2, h3, h4⟩ := h
-  exact ⟨o, ι, P, e.trans h1, h2, h3, h4⟩
+theorem LeafObj.of_get? {s s' : St} {a : Nat} (h : LeafObj s a) (e : s'.get? a = s.get? a) (ec : s'.cur = s.cur) :
+    LeafObj s' a := by
+  obtain ⟨o, ι, P, h1, h2, h3, h4, h5⟩ := h
+  exact ⟨o, ι, P, e.trans h1, h2, h3, h4, h5.trans ec.symm⟩
+
+theorem assignRegistries_self (s : St) (h : String) (e : s.cur = h) : assignRegistries h s = s := by
+  unfold assignRegistries; simp [e]
 
 theorem Rest.refl (ι : String → String) (u : Nat) (s : St) : Rest ι u s s :=
   { others := fun _ _ => rfl
     self := fun o ho => ⟨o, ho, by cases o; rfl⟩
-    names := rfl, nextUid := rfl, work := ⟨rfl, rfl⟩, shares := fun _ _ => rfl, uids := rfl, now := rfl }
+    names := rfl, nextUid := rfl, work := ⟨rfl, rfl⟩, shares := fun _ _ => rfl, uids := rfl, now := rfl, regs := ⟨rfl, rfl, rfl⟩ }
 
 theorem sim_of_obj (ι : String → String) (P : List Frame) (a : Nat) (s : St) (o : Fr) (ho : s.get? a = some o)
     (hfr : o.frames = P.map (Frame.mapRef ι)) :
-    Sim ι o.name P o.first a s.out s s { ctl := o.ctl, mem := fun k => s.read (ι k), now := s.now, ev := [] } :=
-  { obj := ⟨o, ho, rfl, hfr, rfl, rfl⟩, mem := fun _ => rfl, now := rfl, out := by simp, rest := Rest.refl ι a s }
+    Sim ι o.house o.name P o.first a s.out s s { ctl := o.ctl, mem := fun k => s.read (ι k), now := s.now, ev := [] } :=
+  { obj := ⟨o, ho, rfl, hfr, rfl, rfl⟩, mem := fun _ => rfl, now := rfl, out := by simp, rest := Rest.refl ι a s
+    hs := fun o' ho' => by rw [ho] at ho'; injection ho' with ho'; rw [← ho'] }
 
 @[simp] theorem get?_unregister (s : St) (o : Fr) (v : Nat) : (unregister s o).get? v = s.get? v := by
   unfold unregister; split <;> rfl
@@ -78,8 +83,8 @@ theorem pruneStep_leaf (lo' : Ops) (u : Nat) (fn : String) (a : Nat) (s s' : St)
       oa'.ctl.active = none ∧ lookup s'.names oa.name ≠ some a ∧
       (∀ n x, lookup s'.names n = some x → lookup s.names n = some x) ∧
       (∀ v, v ≠ a → v ≠ u → s'.get? v = s.get? v) ∧
-      s'.get? u = (s.get? u).map (dropObj fn a oa.tag) := by
-  obtain ⟨o, ι, P, ho, hfr, hleaf, hinj⟩ := hl
+      s'.get? u = (s.get? u).map (dropObj fn a oa.tag) ∧ s'.cur = s.cur := by
+  obtain ⟨o, ι, P, ho, hfr, hleaf, hinj, hcur⟩ := hl
   unfold pruneStep at h
   have hp : (nextOps lo').prune a s = prune lo' a s := rfl
   rw [hp] at h
@@ -88,9 +93,10 @@ theorem pruneStep_leaf (lo' : Ops) (u : Nat) (fn : String) (a : Nat) (s s' : St)
   | ok s1 =>
     simp only [hr] at h
     obtain ⟨s2, l2, me, hme, hsim, hs1, hact, _, _⟩ :=
-      prune_leaf lo' ι o.name P o.first a s.out hinj hleaf s _ (sim_of_obj ι P a s o ho hfr) s1 hr
+      prune_leaf lo' ι o.house o.name P o.first a s.out hinj hleaf s _ (sim_of_obj ι P a s o ho hfr) s1 hr
     have hmeo : me = o := by rw [ho] at hme; injection hme with hme; exact hme.symm
     subst hmeo
+    rw [assignRegistries_self s2 me.house (by rw [hsim.rest.regs.1]; exact hcur.symm)] at hs1
     obtain ⟨o2, ho2, _, _, _, hctl2⟩ := hsim.obj
     have hs1a : s1.get? a = some o2 := by rw [hs1, get?_unregister]; exact ho2
     simp only [hs1a] at h
@@ -101,7 +107,7 @@ theorem pruneStep_leaf (lo' : Ops) (u : Nat) (fn : String) (a : Nat) (s s' : St)
     subst ho0'
     have htag : o2.tag = o0.tag := by rw [heq]
     have hname : o2.name = o0.name := by rw [heq]
-    refine ⟨o0, o2, ho, ?_, heq, ?_, ?_, ?_, ?_, ?_⟩
+    refine ⟨o0, o2, ho, ?_, heq, ?_, ?_, ?_, ?_, ?_, ?_⟩
     · rw [get?_dropAux_other _ _ _ _ _ _ hau]; exact hs1a
     · rw [hctl2]; exact hact
     · rw [names_dropAux, hs1]
@@ -115,6 +121,9 @@ theorem pruneStep_leaf (lo' : Ops) (u : Nat) (fn : String) (a : Nat) (s s' : St)
       rw [get?_dropAux_other _ _ _ _ _ _ hvu, hs1, get?_unregister]
       exact hsim.rest.others v hva
     · rw [get?_dropAux_self, hs1, get?_unregister, hsim.rest.others u (fun e => hau e.symm), htag]
+    · have e1 : (dropAux u fn a o2.tag s1).cur = s1.cur := rfl
+      have e2 : (unregister s2 o0).cur = s2.cur := by unfold unregister; split <;> rfl
+      rw [e1, hs1, e2]; exact hsim.rest.regs.1
 
 
 theorem frame?_modFrame (o : Fr) (F fn : String) (g : Frame → Frame) (hg : ∀ f, (g f).name = f.name) :
@@ -148,21 +157,23 @@ structure Razed (u : Nat) (F : String) (s : St) (done : List Nat) (si : St) : Pr
     lookup si.names oa.name ≠ some a
   names : ∀ n x, lookup si.names n = some x → lookup s.names n = some x
   notSelf : u ∉ done
+  cur : si.cur = s.cur
 
 theorem Razed.start (u : Nat) (F : String) (s : St) (ou : Fr) (h : s.get? u = some ou) : Razed u F s [] s :=
   { self := ⟨ou, ou, h, h, fun fn => by cases ou.frame? fn <;> simp⟩
     others := fun _ _ _ => rfl
     gone := fun a ha => by cases ha
     names := fun _ _ h => h
-    notSelf := by simp }
+    notSelf := by simp
+    cur := rfl }
 
 theorem Razed.step (lo' : Ops) (u : Nat) (F : String) (s si si' : St) (done : List Nat) (a : Nat)
     (hR : Razed u F s done si) (hau : a ≠ u) (had : a ∉ done) (hl : LeafObj s a)
     (h : pruneStep (nextOps lo') u F a si = .ok si') : Razed u F s (done ++ [a]) si' := by
   have hsa : si.get? a = s.get? a := hR.others a hau had
-  obtain ⟨oa, oa', h1, h2, _, h4, h5, h6, h7, h8⟩ := pruneStep_leaf lo' u F a si si' hau (hl.of_get? hsa) h
+  obtain ⟨oa, oa', h1, h2, _, h4, h5, h6, h7, h8, h9⟩ := pruneStep_leaf lo' u F a si si' hau (hl.of_get? hsa hR.cur) h
   obtain ⟨ou, oi, hu, hui, hfr⟩ := hR.self
-  refine { self := ⟨ou, dropObj F a oa.tag oi, hu, by rw [h8, hui]; rfl, ?_⟩, others := ?_, gone := ?_, names := ?_, notSelf := ?_ }
+  refine { self := ⟨ou, dropObj F a oa.tag oi, hu, by rw [h8, hui]; rfl, ?_⟩, others := ?_, gone := ?_, names := ?_, notSelf := ?_, cur := h9.trans hR.cur }
   · intro fn
     rw [frame?_dropObj, hfr fn]
     cases ou.frame? fn with
